@@ -698,6 +698,16 @@ def rule_no_error_after_output(ctx):
                        "%s runs while output_text() is writing the formatted source and can exit with status %s: part of the source "
                        "is already on the output" % (g.qn, exit_status(g, n)))
     r.ok("scan", None, "%d functions reachable from output_text scanned" % len(R))
+    # (c) nothing reaches the output sink before output_text(): the byte writers (write_bom, write_char, write_string) are called
+    # only from the output module, and no function of that module other than output_text()'s callees runs earlier
+    for q in ("write_bom", "write_char", "write_string"):
+        for f, c in db.callers_of(q):
+            if f.file == "src/uncrustify_emscripten.cpp":
+                continue
+            r.seen()
+            r.check(f.file in ("src/output.cpp", "src/unicode.cpp"), "%s<-%s" % (q, f.qn.split("::")[-1]), db.loc(f, c),
+                    "%s() is called from %s (%s), outside the output module: bytes (a BOM) reach the output before the passes that can still "
+                    "refuse the source have run" % (q, f.qn, f.file))
     r.floor(1)
 
 
